@@ -285,16 +285,24 @@ def lookalike(f):
 OTHERS = [(0x11, 0x77, (0, 0, 0, 4)), (0x11, 0x77, (0, 0, 0, 2)), (0x11, 0x74, (0, 0, 0, 0)), (0x11, 0x79, (1, 2, 3, 3))]
 
 
+# how the gateway labels what it reports: 0x11 = observed traffic; 0x12 = "my own transmission", here under a sequence
+# number no caller waits for (0) - what the gateway sends about a frame whose caller has gone (cancelled send) and,
+# by the firmware quirk the driver documents, about another master's frame equal to its last transmission.
+# Both kinds are bus traffic and go to the subscribers alike.
+RAW_MODE = [0x11]
+
+
 def raw_of(step):
     k = step[0]
+    mode = RAW_MODE[0]
     if k == "fwd":
-        return sim.tri_packet(0x11, 0x73 if step[1] == 16 else 0x76, sim.frame4(step[1], step[2]))
+        return sim.tri_packet(mode, 0x73 if step[1] == 16 else 0x76, sim.frame4(step[1], step[2]))
     if k == "back":
-        return sim.tri_packet(0x11, 0x72, (0, 0, 0, step[1]))
+        return sim.tri_packet(mode, 0x72, (0, 0, 0, step[1]))
     if k == "err":
-        return sim.tri_packet(0x11, 0x77, (0, 0, 0, 3))
+        return sim.tri_packet(mode, 0x77, (0, 0, 0, 3))
     if k == "nf":
-        return sim.tri_packet(0x11, 0x71)
+        return sim.tri_packet(mode, 0x71)
     if k == "other":
         m, t, f = OTHERS[step[1]]
         return sim.tri_packet(m, t, f)
@@ -581,6 +589,8 @@ def describe(script):
             out.append("own-send(%s,%s)" % (s[1].frame, s[2]))
         else:
             out.append(":".join(str(x) for x in s))
+    if RAW_MODE[0] != 0x11:
+        out.insert(0, "[every packet labelled mode %#x (own transmission), sequence number 0]" % RAW_MODE[0])
     return " ".join(out)
 
 
@@ -1152,6 +1162,17 @@ def correspond(ctx, corr):
         check_history(ctx, corr, ids, script, mapper if k % 3 == 0 else None, spec_timeout_s, "random")
         if k == 0:
             corr.sample({"suite": "watch_trace", "history": describe(script)})
+    # the same shapes reported by the gateway as its own transmissions under a sequence number nobody waits for
+    RAW_MODE[0] = 0x12
+    try:
+        for script in fixed_histories(al):
+            check_history(ctx, corr, ids, script, None, spec_timeout_s, "fixed, reported as own transmissions")
+        for k in range(800 if ctx.thorough else 150):
+            script = gen_history(ctx.rng, al, 6)
+            check_history(ctx, corr, ids, script, mapper if k % 3 == 0 else None, spec_timeout_s,
+                          "random, reported as own transmissions")
+    finally:
+        RAW_MODE[0] = 0x11
     # classification, through the watcher
     cls_scripts = list(suite_classify(ctx, corr, ids, spec_timeout_s))
     for script in cls_scripts:
